@@ -122,6 +122,19 @@ pub fn grid() -> Vec<(Shape, u8, Option<usize>, Fault)> {
             }
         }
     }
+    // ---- panic on one of the last items of a bounded stream (other workers may already have
+    //      seen the end of the input and be on their way out)
+    for j in [0usize, 1, 2, 5, 8] {
+        for d in 1..=3usize {
+            for w in 1..=4u8 {
+                for stall in [0u16, 30] {
+                    g.push((Shape::Pipe, w, Some(j + d), Fault::FnPanic { j, stall }));
+                    g.push((Shape::PipeBuffered(1), w, Some(j + d), Fault::FnPanic { j, stall }));
+                }
+                g.push((Shape::Pipe, w, Some(j + d), Fault::SrcPanic { j, stall: 0 }));
+            }
+        }
+    }
     // ---- panic after another component replaced the process-global hook
     for j in [0usize, 4, 8] {
         for w in 1..=3u8 {
@@ -655,7 +668,7 @@ impl C09 {
                     stats.fault("other_component_replaced_the_panic_hook");
                 }
                 if !fault_fired {
-                    // the stream ended before item j (cannot happen with n >= 40 > j)
+                    // the stream ended before item j (cannot happen: every cell has n > j)
                     return v("harness:fault-did-not-fire", format!("panic at item {j} never fired; status {:?}", r.status));
                 }
                 stats.fault(if is_src { "upstream_panic_under_lock" } else { "processing_fn_panic" });
